@@ -988,6 +988,10 @@ func (y *ifFeatureEval) parseNot() bool {
 		y.fail()
 		return false
 	}
+	// identifier-ref-arg = [prefix ":"] identifier. enabled features are keyed by name
+	if i := strings.LastIndexByte(tok, ':'); i >= 0 {
+		tok = tok[i+1:]
+	}
 	_, found := y.features[tok]
 	return found
 }
